@@ -191,6 +191,19 @@ class TestData(Contract):
                 Cl("scaled-data-record-extended", appended(f["_scaled_data"], f0["_scaled_data"], used)),
                 Cl("summary-covers-exactly-the-newly-tested-samples", Vv.to_z3(result["Total mappings"]) == nu, prop=True)]
 
+    def post_raise(self, S, old, env, exc_name):
+        if exc_name not in ("ValueError", "AttributeError", "IndexError"):
+            return None
+        f, f0 = env["self"].fields, old["self"].fields
+        same = [f["_calculated_classes_testset"].to_symbolic().arr == f0["_calculated_classes_testset"].to_symbolic().arr,
+                VV(f["_calculated_classes_testset"].len()) == VV(f0["_calculated_classes_testset"].len())]
+        qi = z3.Int("rqi")
+        for k in ("_testing_data",) + (() if exc_name == "IndexError" else ("_omitted_data", "_scaled_data")):
+            for x, y in zip(rows(f[k]), rows(f0[k])):
+                same += [VV(x.len()) == VV(y.len()), z3.ForAll([qi], z3.Implies(z3.And(qi >= 0, qi < VV(y.len())), z3.Select(x.arr, qi) == z3.Select(y.arr, qi)))]
+        # (the IndexError exit is the empty-classification observation of DESIGN section 9: the unlabelled samples were already set aside)
+        return [Cl("a-refused-request-leaves-the-recorded-classes-and-tested-samples-untouched", z3.And(*same), prop=True)]
+
     def pre(self, S, env):
         f = env["self"].fields
         return [("classes-aligned-with-tested-samples", VV(f["_calculated_classes_testset"].len()) == VV(rows(f["_testing_data"])[0].len()))]
@@ -237,6 +250,19 @@ class CallEvaluate(Contract):
                    z3.ForAll([i], z3.Implies(z3.And(i >= 0, i < VV(es.len())), z3.And(z3.Select(rs.arr, i) == z3.Select(es.arr, i), z3.Select(rl.arr, i) == z3.ToReal(z3.Select(newc.arr, i)))))), prop=True),
                 Cl("classes-of-earlier-data-unchanged", z3.And(VV(cls.len()) == VV(cls0.len()), cls.arr == cls0.arr), prop=True),
                 Cl("tested-samples-record-untouched", z3.And(*[x.arr == y.arr for x, y in zip(rows(f["_testing_data"]), rows(f0["_testing_data"]))]), prop=True)]
+
+    def post_raise(self, S, old, env, exc_name):
+        if exc_name not in ("ValueError", "AttributeError", "IndexError"):
+            return None
+        f, f0 = env["self"].fields, old["self"].fields
+        same = [f["_calculated_classes_testset"].to_symbolic().arr == f0["_calculated_classes_testset"].to_symbolic().arr,
+                VV(f["_calculated_classes_testset"].len()) == VV(f0["_calculated_classes_testset"].len())]
+        qi = z3.Int("rqi")
+        for k in ("_testing_data",) + (() if exc_name == "IndexError" else ("_omitted_data", "_scaled_data")):
+            for x, y in zip(rows(f[k]), rows(f0[k])):
+                same += [VV(x.len()) == VV(y.len()), z3.ForAll([qi], z3.Implies(z3.And(qi >= 0, qi < VV(y.len())), z3.Select(x.arr, qi) == z3.Select(y.arr, qi)))]
+        # (the IndexError exit is the empty-classification observation of DESIGN section 9: the unlabelled samples were already set aside)
+        return [Cl("a-refused-request-leaves-the-recorded-classes-and-tested-samples-untouched", z3.And(*same), prop=True)]
 
     @staticmethod
     def model_to_input(model):
